@@ -12,7 +12,10 @@ RULE = ("(rulebook, ordering, vendor, old, new_1..new_k): random rulebooks over 
         "(huawei/cisco/arista/nexus/b4com reverse prefixes and exits), configs instantiating the rules with one row per "
         "(rule,key) (10%: several), chains of 1..3 successive targets; the patch of every step is executed command by command "
         "on the device specification;" + rbgen.SMALL_RULE % (", one-step chains", "") +
-        " non-trivial = the first patch has >=3 commands incl. a nested one; distinct = distinct case")
+        " non-trivial = the first patch has >=3 commands incl. a nested one; distinct = distinct case "
+        "; plus kind=shipped: the SHIPPED rulebooks of huawei/cisco/arista (rule and ordering texts with the vendor functions of "
+        "the common kinds), configurations from the rows of the shipped corpus whose rules use default/undo_redo/permanent logic "
+        "and the default diff logic, chains of 1-2 steps with changed numbers, real code and device specification only")
 TRUSTED_BASE = [
     "Lean 4.33 kernel; axioms per theorem listed (subset of propext, Classical.choice, Quot.sound)",
     "Spec/Device.lean (the device 'holding one line per rule and key') is a SPECIFICATION written for this property; its "
@@ -39,10 +42,16 @@ def shards(tier, seed):
         out += [dict(kind="small", part=(seed * 2 + i) % 512, parts=512) for i in range(2)]
     else:
         out += [dict(kind="small", part=i, parts=32) for i in range(32)]
+    # the SHIPPED rulebooks (rule texts, ordering texts, vendor functions of the common kinds), harness/c01shipped.py
+    out += [dict(kind="shipped", seed=seed * 100 + i, n=150 if tier == "quick" else 3000) for i in range(16)]
     return out
 
 
 def gen(desc):
+    if desc.get("kind") == "shipped":
+        from harness import c01shipped
+        yield from c01shipped.gen(desc)
+        return
     if desc.get("kind") == "small":
         for c in rbgen.small_cases(desc["part"], desc["parts"], vendors=("huawei", "cisco", "arista")):
             c["targets"] = [c.pop("new")]
@@ -134,12 +143,17 @@ def run_chain(case):
 
 
 def impl(case):
+    if case.get("kind") == "shipped":
+        from harness import c01shipped
+        return c01shipped.run(case)
     steps, _ = run_chain(case)
     return {"steps": [dict((k, v) for k, v in s.items() if k in ("paths", "after", "err", "patch")) for s in steps],
             "full": steps}
 
 
 def requests(case):
+    if case.get("kind") == "shipped":
+        return []           # vendor functions are outside the model: real code + device specification only
     # the model side needs the real command paths: they are produced by impl; recompute (deterministic)
     steps, _ = run_chain(case)
     reqs = []
@@ -312,6 +326,9 @@ def in_domain(case, rules):
 
 def oracle(case, r):
     c16.setup_worker()
+    if case.get("kind") == "shipped":
+        from harness import c01shipped
+        return c01shipped.oracle(case, r)
     out = []
     rb = rbgen.compile_rb(case["ptext"], case["otext"], case["vendor"])
     rules = rb["patching"]
@@ -367,12 +384,18 @@ def oracle(case, r):
 
 
 def nontrivial(case, r):
+    if case.get("kind") == "shipped":
+        from harness import c01shipped
+        return c01shipped.nontrivial(case, r)
     s = r["full"][0] if r["full"] else {}
     p = s.get("paths", [])
     return len(p) >= 3 and any(len(x) > 1 for x in p)
 
 
 def stats(case, r):
+    if case.get("kind") == "shipped":
+        from harness import c01shipped
+        return c01shipped.stats(case, r)
     lab = ["vendor=" + case["vendor"], "chain=%d" % len(case["targets"])]
     rb = rbgen.compile_rb(case["ptext"], case["otext"], case["vendor"])
     lab.append("in-domain" if in_domain(case, rb["patching"]) else "several-rows-per-key(out of domain)")
@@ -389,6 +412,11 @@ def stats(case, r):
 
 
 def shrink_candidates(case):
+    if case.get("kind") == "shipped":
+        from harness import c01shipped
+        yield from c01shipped.shrink_candidates(case)
+        return
+
     def drops(tree):
         for i in range(len(tree)):
             yield tree[:i] + tree[i + 1:]
